@@ -18,7 +18,7 @@ BOUNDS = {
 }
 STUBS = ["urllib.parse.quote: per-byte model, differentially tested at start-up", "percent-decoding of the built URL: ASCII escapes only"]
 ASSUMPTIONS = ["rule maps are enumerated (pairwise non-overlapping rules)", "values are ASCII (non-ASCII quoting goes through UTF-8 and is outside this claim)"]
-OUTSIDE = ["float converter (C float parsing/formatting)", "uuid values beyond 3 (8) free hex digits in a fixed template", "non-ASCII values", "Subdomain factory", "extra query values"]
+OUTSIDE = ["float converter (C float parsing/formatting)", "uuid values beyond 3 (8) free hex digits in a fixed template", "non-ASCII values", "Subdomain factory", "more than one extra query value, multi-valued extras"]
 
 RULES = [
     ("s", "/s/<x>", "str"),
@@ -37,6 +37,8 @@ RULES = [
     # same endpoint as the defaults rule '/L/' below, with MORE arguments: when all of them
     # are given this rule must be chosen even if the shared one equals the default
     ("L", "/P/<int:n>/<x>", "str+int"),
+    # an any() converter whose items are prefixes of one another, followed by another segment
+    ("A2", "/a2/<any(img,image,images):v>/show", "any3"),
 ]
 DEFAULT_RULES = [("d", "/d", {"n": 1}), ("L", "/L/", {"n": 1}),
                  # defaults for variables that DO appear in the rule: built from the default's URL form
@@ -86,7 +88,7 @@ def build_map():
     return m
 
 
-def body_build_match(I, X, ep="s", script="/", external=False, n=2):
+def body_build_match(I, X, ep="s", script="/", external=False, n=2, extra=0):
     m = build_map()
     adapter = m.bind("example.org", script, url_scheme="http")
     kind = [k for e, r, k in RULES if e == ep][0]
@@ -117,6 +119,8 @@ def body_build_match(I, X, ep="s", script="/", external=False, n=2):
         values["p"] = p
     if kind == "any":
         values["k"] = X.choice("k", ["xx", "y"])
+    if kind == "any3":
+        values["v"] = X.choice("v", ["img", "image", "images"])
     utext = None
     if kind == "uuid":
         # n solver hex digits at positions spread over the five groups (incl. the version and
@@ -132,11 +136,29 @@ def body_build_match(I, X, ep="s", script="/", external=False, n=2):
             last = ppos + 1
         utext = pconcat(*parts, UUID_TEMPLATE[last:])
         values["u"] = SymUUID(utext) if X.symbolic else uuid.UUID(utext)
-    url = I.call(adapter.build, (ep,), {"values": dict(values), "force_external": external})
+    bvalues = dict(values)
+    ev = None
+    if extra:
+        # a value the rule does not bind is appended as a query argument
+        ev = X.str("extra", extra, minlen=extra, maxcp=0x7E)
+        X.assume(pall_in(ev, [(0x21, 0x7E)]))
+        X.assume(pnone_in(ev, [0x2B]))
+        bvalues["extra"] = ev
+    url = I.call(adapter.build, (ep,), {"values": bvalues, "force_external": external})
     root = ("http://example.org" if external else "") + script.rstrip("/")
     ok = pstartswith(url, root + "/")
     if not bool(ok):
         return False, {"url": url}
+    if extra:
+        # exactly one '?': the query carries the extra value (escaped so that nothing in it ends
+        # the query or starts another pair), the path in front of it is checked as usual
+        cut = url.find("?")
+        if bool(cut < 0):
+            return False, {"url": url}
+        query = url[cut + 1:]
+        url = url[:cut]
+        if not bool(pand(pstartswith(query, "extra="), pnone_in(query, [0x23, 0x26, 0x20]), peq(punquote(query[6:]), ev))):
+            return False, {"url": url, "query": query}
     path = punquote(url[len(root):])
     got_ep, got_args = I.call(adapter.match, (), {"path_info": path, "method": "GET"})
     got = dict(I.dict_items(got_args))
@@ -271,7 +293,7 @@ def obligations(tier, seed):
             for external in (False, True):
                 if quick and script != "/" and external:
                     continue
-                ns = [0] if kind in ("int", "int3", "sint", "sint4", "any", "str2", "int-default") else (range(1, 4) if quick else range(1, 6))
+                ns = [0] if kind in ("int", "int3", "sint", "sint4", "any", "any3", "str2", "int-default") else (range(1, 4) if quick else range(1, 6))
                 if kind == "uuid":
                     ns = [3] if quick else [4, 8]
                 if kind == "path":
@@ -281,6 +303,11 @@ def obligations(tier, seed):
                                 "params": {"ep": ep, "script": script, "external": external, "n": n},
                                 "opts": {"budget_s": 900, "ctx": {"max_cp": 0x7E, "bv_ints": True, "max_digits": 6}},
                                 "witness": n in (0, 2) and script == "/" and not external})
+    for ep, n in (("s", 1), ("i", 0), ("p", 2)):
+        for k in ((1, 2) if quick else (1, 2, 3)):
+            out.append({"name": f"build_match[{ep},extra={k},n={n}]", "body": "body_build_match",
+                        "params": {"ep": ep, "script": "/", "external": False, "n": n, "extra": k},
+                        "opts": {"budget_s": 900, "ctx": {"max_cp": 0x7E, "bv_ints": True, "max_digits": 6}}})
     for ep in ("e", "e2"):
         out.append({"name": f"build_default[{ep}]", "body": "body_build_default", "params": {"ep": ep},
                     "opts": {"budget_s": 900, "ctx": {"max_cp": 0x7E, "bv_ints": True, "max_digits": 6}}})
